@@ -243,10 +243,12 @@ package main
 //@   requires [C11] identity:  actsAsSelfOrRoot(s, msg)
 //@   modifies *
 //@ func (s *Session) acc(msg *ClientComMessage)
-//@   trusted
 //@   requires [C11] handshake: s.ver != 0
 //@   requires [C11] identity:  actsAsSelfOrRoot(s, msg)
+//@   requires [C13] s != nil && msg != nil && msg.Acc != nil && store.Store != nil
 //@   modifies *
+//@   nopanic
+//@   safe
 //@ func (s *Session) note(msg *ClientComMessage)
 //@   requires [C11] identity:  actsAsSelfOrRoot(s, msg)
 //@   requires [C13] s != nil && msg != nil && msg.Note != nil && globals.hub != nil
@@ -406,7 +408,10 @@ package main
 // Deleting a topic for everybody: only at the owner's request (or the last participant of a p2p topic).
 //@ func (h *Hub) topicUnreg(sess *Session, topic string, msg *ClientComMessage, reason int) (err error)
 //@   requires h != nil && (reason == StopDeleted ==> msg != nil && sess != nil && msg.Del != nil)
+//@   requires [C13] env: store.Topics != nil && store.Subs != nil
 //@   modifies inferred
+//@   nopanic
+//@   safe
 //@   assert at call store.TopicsPersistenceInterface.Delete#1 [C06] online_owner_only: (asUid != types.ZeroUid && t.owner == asUid && asUid == types.ParseUserId(msg.AsUser)) || t.cat == types.TopicCatP2P
 //@   assert at call store.TopicsPersistenceInterface.Delete#2 [C06] offline_empty_p2p: tcat == types.TopicCatP2P && len(subs) == 0
 //@   assert at call store.TopicsPersistenceInterface.Delete#4 [C06] offline_last_p2p: tcat == types.TopicCatP2P && len(subs) < 2
@@ -479,3 +484,8 @@ package main
 //@ func pbClientCredDeserialize(in *pbx.ClientCred) (res *MsgCredClient)
 //@   modifies inferred
 //@   ensures [C13] in != nil ==> res != nil
+
+// The hub's topic registry holds only *Topic values (trusted: sync.Map is not modelled).
+//@ func (h *Hub) topicGet(name string) (t *Topic)
+//@   trusted
+//@   modifies nothing
